@@ -93,13 +93,15 @@ def publish_last(ctx):
                     if st not in ahead_st:
                         ahead_st.append(st)
         order = [x for x in ("analysis", "generation", "fill", "other") if x in ahead]
-        suffix = "last" if not ahead else "before-" + "+".join(order)
+        # the finding is "published before the build can no longer fail"; which phases are still ahead is said in
+        # the text, not in the key (the phase attribution depends on call-graph precision and is not an identity)
+        suffix = "last" if not ahead else "before-fallible-steps"
         ctx.ob(
             f"{build.key}:{cat}-{suffix}",
             build.loc(stmts[0]),
             f"no fallible build step is reachable after publishing {what[cat]} (`{short(stmts[0], 50)}`)",
             not ahead,
-            f"`{short(stmts[0], 50)}` makes the new build visible while {', '.join('`' + short(s, 45) + '` (' + build.loc(s).split(':')[-1] + ')' for s in ahead_st[:3])} can still fail: a failure there leaves a partially filled table in service",
+            f"`{short(stmts[0], 50)}` makes the new build visible while {', '.join('`' + short(s, 45) + '` (' + build.loc(s).split(':')[-1] + ')' for s in ahead_st[:3])} can still fail (phases still ahead: {', '.join(order)}): a failure there leaves a partially filled table in service",
         )
 
 
